@@ -56,6 +56,10 @@ ITEMS = [
      'negb (has_impl "ThreadKey" "Clone")', ["E0599"], None),
     ("key_copy", "C14", "Copy of the key (use after move)", KEY + "    let a = key;\n    let b = key;", KEY + "    let a = key;",
      'negb (has_impl "ThreadKey" "Copy")', ["E0382"], None),
+    ("guard_into_iter", "C14", "a collection guard taken apart by value: the keyless holds go to the caller, the key is dropped and obtainable again",
+     KEY + "    let c = LockCollection::new([Mutex::new(1), Mutex::new(2)]);\n    let g = c.lock(key);\n    let holds: Vec<_> = g.into_iter().collect();\n    let key2 = ThreadKey::get();\n    drop(holds);",
+     KEY + "    let c = LockCollection::new([Mutex::new(1), Mutex::new(2)]);\n    let g = c.lock(key);\n    let n = g.iter().count();\n    drop(g);",
+     "k8", ["E0507", "E0508", "E0599", "E0277"], None),
     ("key_through_shared_rwlock", "C14", "a key stored in an RwLock that is shared by reference: another thread write-locks it and takes the key",
      KEY + "    let slot = RwLock::new(Some(key));\n    std::thread::scope(|s| { s.spawn(|| { let k = ThreadKey::get().unwrap(); let mut g = slot.write(k); let stolen = g.take(); drop(stolen); }); });",
      KEY + "    let slot = RwLock::new(Some(1u8));\n    drop(key);\n    std::thread::scope(|s| { s.spawn(|| { let k = ThreadKey::get().unwrap(); let mut g = slot.write(k); let x = g.take(); drop(x); }); });",
